@@ -397,9 +397,152 @@ wait:
 	if haveFin {
 		fs = strconv.FormatInt(fin, 10)
 	}
-	sum := fmt.Sprintf("tbl=%s tok=%s nu=%d uok=%s mono=%s fin=%s stable=%s lq=%d cb=%d pan=%d",
+	sum := fmt.Sprintf("tbl=%s tok=%s nu=%d uok=%s mono=%s fin=%s stable=%s lq=%d cb=%d pan=%d conf=1",
 		vh.B(b.tblOK), ts, nu, vh.B(uok), vh.B(mono), fs, vh.B(stable), lq, atomic.LoadInt32(&cb), atomic.LoadInt32(&panicked))
 	return sum + " | " + logText(evs, base)
+}
+
+// ---------------------------------------------------------------- race
+//
+//	race <tree> <G> <iters>   finite trees only; NO recording wrappers (the leaves race for real)
+//
+// iters times: build the schedule, Start(t0), release G goroutines together by a spinning barrier;
+// each draws until !ok, polling Left() in between; then the quiescent Left().  Observation (all
+// iterations must agree, else "var ..."): tok=<sorted token times> fin=<finish> lq=<final Left>
+// cb=<callback count> lneg=<number of negative Left results> lover=<Left results above the total>
+// mono=<0|1> stable=<0|1>.
+func runRace(f []string) string {
+	tree := parseTree(f[1])
+	g, _ := strconv.Atoi(f[2])
+	iters, _ := strconv.Atoi(f[3])
+	total, _ := countTokens(tree)
+	var first string
+	same := true
+	lneg, lover := 0, 0
+	mono, stable := true, true
+	for it := 0; it < iters; it++ {
+		b := &built{log: &recLog{}, tblOK: true, bare: true}
+		func() {
+			defer func() {
+				if e := recover(); e != nil {
+					b.ctorPanic = panicKind(e)
+				}
+			}()
+			b.top = b.build(tree, true)
+		}()
+		if b.ctorPanic != "" {
+			return "Pctor:" + b.ctorPanic
+		}
+		var cb int32
+		top := coreutil.NewCallbackOnFinishSchedule(b.top, func() { atomic.AddInt32(&cb, 1) })
+		t0 := time.Now().Add(-time.Duration(past))
+		top.Start(t0)
+		var ready int32
+		var wg sync.WaitGroup
+		var mu sync.Mutex
+		var toks []int64
+		fins := map[int64]bool{}
+		panicked := false
+		for gi := 0; gi < g; gi++ {
+			wg.Add(1)
+			go func(gi int) {
+				defer wg.Done()
+				defer func() {
+					if recover() != nil {
+						mu.Lock()
+						panicked = true
+						mu.Unlock()
+					}
+				}()
+				atomic.AddInt32(&ready, 1)
+				for spins := 0; atomic.LoadInt32(&ready) < int32(g); spins++ {
+					if spins%1000 == 999 {
+						runtime.Gosched()
+					}
+				}
+				var mine []int64
+				myNeg, myOver := 0, 0
+				last := int64(-1 << 62)
+				okMono, okStable := true, true
+				ended := false
+				for n := 0; n < total+3; n++ {
+					tx, ok := top.Next()
+					t := int64(tx.Sub(t0))
+					if t < last {
+						okMono = false
+					}
+					last = t
+					if ok {
+						if ended {
+							okStable = false
+						}
+						mine = append(mine, t)
+					} else {
+						ended = true
+						mu.Lock()
+						fins[t] = true
+						mu.Unlock()
+					}
+					if (n+gi)%2 == 0 {
+						l := top.Left()
+						if l < 0 {
+							myNeg++
+						}
+						if l > total {
+							myOver++
+						}
+					}
+				}
+				mu.Lock()
+				toks = append(toks, mine...)
+				lneg += myNeg
+				lover += myOver
+				mono = mono && okMono
+				stable = stable && okStable
+				mu.Unlock()
+			}(gi)
+		}
+		done := make(chan struct{})
+		go func() { wg.Wait(); close(done) }()
+		select {
+		case <-done:
+		case <-time.After(5 * time.Second):
+			return "hang"
+		}
+		if panicked {
+			return "panic"
+		}
+		lq := top.Left()
+		sort.Slice(toks, func(i, j int) bool { return toks[i] < toks[j] })
+		p := make([]string, len(toks))
+		for i, t := range toks {
+			p[i] = strconv.FormatInt(t, 10)
+		}
+		ts := "-"
+		if len(p) > 0 {
+			ts = strings.Join(p, ",")
+		}
+		fs := "-"
+		if len(fins) == 1 {
+			for k := range fins {
+				fs = strconv.FormatInt(k, 10)
+			}
+		} else if len(fins) > 1 {
+			fs = "several"
+		}
+		cur := fmt.Sprintf("tok=%s fin=%s lq=%d cb=%d", ts, fs, lq, atomic.LoadInt32(&cb))
+		if it == 0 {
+			first = cur
+		} else if cur != first {
+			same = false
+			first = first + " VERSUS " + cur
+			break
+		}
+	}
+	if !same {
+		return "var " + first
+	}
+	return fmt.Sprintf("%s lneg=%d lover=%d mono=%s stable=%s", first, lneg, lover, vh.B(mono), vh.B(stable))
 }
 
 func runCase(c string) (out string) {
@@ -414,6 +557,8 @@ func runCase(c string) (out string) {
 		return runSeq(f)
 	case "conc":
 		return runConc(f)
+	case "race":
+		return runRace(f)
 	}
 	return "unknown-case"
 }
@@ -516,9 +661,9 @@ func genOps(r *vh.Rand, n int, pL int) string {
 
 func gen(r *vh.Rand, tier string) []string {
 	var out []string
-	nseq, nconc, maxG, depth := 260, 160, 8, 3
+	nseq, nconc, nflat, maxG, depth := 500, 300, 200, 8, 3
 	if tier == "thorough" {
-		nseq, nconc, maxG, depth = 6000, 4000, 16, 4
+		nseq, nconc, nflat, maxG, depth = 6000, 4000, 3000, 16, 4
 	}
 	for i := 0; i < nseq; i++ {
 		explicit := r.Chance(3, 4)
@@ -586,6 +731,64 @@ func gen(r *vh.Rand, tier string) []string {
 			s = "S"
 		}
 		out = append(out, fmt.Sprintf("conc %s %s %s", t, s, strings.Join(plans, "/")))
+	}
+	// flat composites of recorded parts, explicit start, Left-heavy plans: the per-goroutine
+	// conformance replay of the atomic-section model applies to every one of these
+	for i := 0; i < nflat; i++ {
+		t := &node{kind: "comp"}
+		n := r.Range(2, 6)
+		for j := 0; j < n; j++ {
+			switch r.Intn(8) {
+			case 0:
+				t.kids = append(t.kids, &node{kind: "comp"})
+			case 1:
+				t.kids = append(t.kids, &node{kind: "istep", p: []int64{int64(r.Intn(3)), int64(r.Range(0, 5)), int64(r.Range(1, 2)), 1000000}})
+			default:
+				t.kids = append(t.kids, genLeaf(r, true, j == n-1))
+			}
+		}
+		fillTables(t)
+		tok, _ := countTokens(t)
+		g := r.Range(2, maxG)
+		per := (tok+g-1)/g + r.Range(1, 4)
+		if per > 60 {
+			per = 60
+		}
+		pL := r.PickInt([]int{20, 40, 60})
+		var plans []string
+		total := 0
+		for j := 0; j < g; j++ {
+			p := genOps(r, per+r.Intn(3), pL)
+			total += strings.Count(p, "N")
+			plans = append(plans, p)
+		}
+		for total < tok+g && len(plans[0]) < 400 {
+			plans[total%g] += "N"
+			total++
+		}
+		out = append(out, fmt.Sprintf("conc %s S %s", t, strings.Join(plans, "/")))
+	}
+	nrace, riters := 10, 300
+	if tier == "thorough" {
+		nrace, riters = 60, 3000
+	}
+	for i := 0; i < nrace; i++ {
+		var t *node
+		switch i % 5 {
+		case 0:
+			t = &node{kind: "once", p: []int64{int64(r.Range(1, 3))}}
+		case 1:
+			t = &node{kind: "comp", kids: []*node{{kind: "once", p: []int64{int64(r.Range(1, 2))}}, {kind: "once", p: []int64{int64(r.Range(1, 4))}}}}
+		case 2:
+			t = &node{kind: "istep", p: []int64{int64(r.Range(1, 2)), int64(r.Range(3, 6)), int64(r.Range(1, 2)), 1000000}}
+		default:
+			t = genTree(r, 2, false, false)
+		}
+		fillTables(t)
+		if tok, _ := countTokens(t); tok > 40 {
+			continue
+		}
+		out = append(out, fmt.Sprintf("race %s %d %d", t, r.Range(2, maxG), riters))
 	}
 	return out
 }
